@@ -93,12 +93,35 @@ func (tc *templateChecker) checkTemplate(node ast.Node) {
 		return
 	case *ast.DataRefNode:
 		tc.visitKey(node.Key)
+	case *ast.FunctionNode:
+		switch node.Name {
+		case "index", "isFirst", "isLast":
+			tc.checkLoopFunc(node)
+		}
 	case *ast.HeaderParamNode:
 		panic(fmt.Errorf("unexpected {@param ...} tag found"))
 	}
 	if parent, ok := node.(ast.ParentNode); ok {
 		tc.recurse(parent)
 	}
+}
+
+// checkLoopFunc ensures that index / isFirst / isLast speak about the variable
+// of an enclosing loop: of anything else the renderer has no index to look up.
+func (tc *templateChecker) checkLoopFunc(node *ast.FunctionNode) {
+	if len(node.Args) == 1 {
+		if ref, ok := node.Args[0].(*ast.DataRefNode); ok && len(ref.Access) == 0 {
+			// (a {let} of the same name inside the loop shadows the variable, not
+			// the loop: the functions still speak about the loop.)
+			for _, v := range tc.vars {
+				if v.name == ref.Key && !v.isLet {
+					return
+				}
+			}
+		}
+	}
+	panic(fmt.Errorf("%v: the argument of %s must be the variable of an enclosing foreach or for loop",
+		node, node.Name))
 }
 
 // checkLet ensures that the let variable has an allowed name.
